@@ -258,14 +258,14 @@ Definition spec_declared (opts : option (list eopt)) : declared_scope :=
       end
   end.
 (* audience of an answer fetched with forwarded source [source]: Some None = everyone,
-   Some (Some p) = clients inside p, None = the answer must not be kept for anybody else
-   (tolerated only when the forwarded source or the floor is /0) *)
+   Some (Some p) = clients inside p.  An answer tailored to nobody-can-say-whom is kept for the
+   audience that asked: the forwarded prefix, cut to the floor (everyone only when that is /0). *)
 Definition spec_audience (p : option policy) (opts : option (list eopt)) (source : option pfx) : option (option pfx) :=
   match spec_declared opts with
   | DNone => Some None
   | DScope d => Some (effective_scope p (Some d) source)
   | DUnusable => match source with
-                 | Some s => if p_bits s =? 0 then Some None else None
+                 | Some s => Some (effective_scope p (Some s) source)
                  | None => Some None
                  end
   end.
